@@ -216,7 +216,10 @@ func renderMain(c *Ctx) {
 		}
 	}
 	res := make([]*trace.Scenario, count)
-	parallel(count, func(i int) { res[i] = renderRun(jobs[i], shades) })
+	// sequential on purpose: a renderer that shares state between instances (C25) must not make this check flaky
+	for i := range jobs {
+		res[i] = renderRun(jobs[i], shades)
+	}
 	for _, s := range res {
 		w.Put(s)
 	}
